@@ -22,7 +22,7 @@ THEOREMS = ['save_preserves', 'save_preserves_obs', 'save_writes_iff', 'load_sav
 def gen_script(rng):
     theta0 = rng.randint(-30, 30)
     opt = rng.choice(['plain', 'closure'])
-    n_valid = rng.choice([1, 2, 3, 4])
+    n_valid = rng.choice([0, 1, 2, 3, 4])
     lines = [f'init {theta0} {opt} {rng.randint(1, 3)} {n_valid} {rng.randint(0, 2)}']
     for _ in range(rng.randint(2, 6)):
         r = rng.random()
@@ -87,7 +87,7 @@ def stream_a(rng, n):
                     for k in ('theta', 'train', 'valid', 'lowest', 'best', 'opt', 'loss'):
                         if prev[k] != d[k]:
                             bad.append(dict(script=lines, kw=kw, violated=f'load() did not restore {k}', saved=prev[k], loaded=d[k]))
-                if tag == 'E' and d['valid'] and d['lowest'] != min(d['valid']):
+                if tag == 'E' and d['valid'] and lines[0].split()[4] != '0' and d['lowest'] != min(d['valid']):
                     bad.append(dict(script=lines, kw=kw, violated='after resuming, lowest_loss is not the minimum of the whole validation history',
                                     lowest=d['lowest'], history=d['valid']))
                 prev = d
@@ -122,7 +122,7 @@ def same_snapshot(a, b):
     return (a['best'] is None) == (b['best'] is None)
 
 
-def make_real(kind, rng, opt_name):
+def make_real(kind, rng, opt_name, n_valid=4):
     import torch
     from neurodiffeq.solvers import Solver1D, Solver2D, BundleSolver1D
     from neurodiffeq.conditions import IVP, DirichletBVP2D, BundleIVP
@@ -130,16 +130,17 @@ def make_real(kind, rng, opt_name):
     from neurodiffeq.generators import Generator1D, Generator2D
     from ..fixtures import c18_eqs as E
     torch.manual_seed(rng.randrange(1 << 30))
-    mk_opt = lambda nets: (torch.optim.SGD([p for n in nets for p in n.parameters()], lr=1e-2) if opt_name == 'SGD'
-                           else torch.optim.Adam([p for n in nets for p in n.parameters()], lr=1e-2))
+    lr = rng.choice([1e-2, 3e-3, 5e-2])
+    mk_opt = lambda nets: (torch.optim.SGD([p for n in nets for p in n.parameters()], lr=lr, momentum=rng.choice([0.0, 0.0, 0.9])) if opt_name == 'SGD'
+                           else torch.optim.Adam([p for n in nets for p in n.parameters()], lr=lr))
     if kind == 'Solver1D':
         nets = [FCNN(1, 1, hidden_units=(4,))]
-        s = Solver1D(E.ode, [IVP(0., 1.)], t_min=0., t_max=1., nets=nets, optimizer=mk_opt(nets),
+        s = Solver1D(E.ode, [IVP(0., 1.)], t_min=0., t_max=1., nets=nets, optimizer=mk_opt(nets), n_batches_valid=n_valid,
                      train_generator=Generator1D(8, 0., 1.), valid_generator=Generator1D(8, 0., 1., method='equally-spaced'))
         coords = [torch.linspace(0, 1, 5)]
     elif kind == 'Solver1D-2eq':
         nets = [FCNN(1, 1, hidden_units=(4,)) for _ in range(2)]
-        s = Solver1D(E.ode2, [IVP(0., 0.), IVP(0., 1.)], t_min=0., t_max=1., nets=nets, optimizer=mk_opt(nets))
+        s = Solver1D(E.ode2, [IVP(0., 0.), IVP(0., 1.)], t_min=0., t_max=1., nets=nets, optimizer=mk_opt(nets), n_batches_valid=n_valid)
         coords = [torch.linspace(0, 1, 5)]
     elif kind == 'Solver2D':
         nets = [FCNN(2, 1, hidden_units=(4,))]
@@ -170,7 +171,9 @@ def stream_real(rng, n, shim):
         ctx = dict(kind=kind, optimizer=opt, shim=shim)
         with warnings.catch_warnings():
             warnings.simplefilter('ignore')
-            s, coords = make_real(kind, rng, opt)
+            nv = rng.choice([4, 4, 1, 0])
+            ctx['n_batches_valid'] = nv
+            s, coords = make_real(kind, rng, opt, n_valid=nv)
             s.fit(rng.randint(0, 4), tqdm_file=None)
             cur = s
             for cyc in range(rng.randint(1, 2) if shim else 1):
@@ -226,6 +229,10 @@ def stream_real(rng, n, shim):
                         bad.append(dict(ctx, violated=f'{k} history differs after load'))
                 if loaded.global_epoch != cur.global_epoch:
                     bad.append(dict(ctx, violated='global epoch differs after load', got=loaded.global_epoch, want=cur.global_epoch))
+                hp = lambda o: [(type(o).__name__, {k: v for k, v in g.items() if k != 'params'}, len(g['params'])) for g in o.param_groups]
+                if hp(loaded.optimizer) != hp(cur.optimizer):
+                    bad.append(dict(ctx, violated='optimiser kind / hyper-parameters / parameter count differ after load',
+                                    saved=str(hp(cur.optimizer))[:300], loaded=str(hp(loaded.optimizer))[:300]))
                 if loaded.lowest_loss != cur.lowest_loss:
                     bad.append(dict(ctx, violated='lowest_loss not restored', got=loaded.lowest_loss, want=cur.lowest_loss))
                 # resume: tracking refers to the whole history
@@ -237,7 +244,7 @@ def stream_real(rng, n, shim):
                     bad.append(dict(ctx, violated='loaded solver cannot continue training', error=f'{type(e).__name__}: {e}'))
                     break
                 vl = loaded.metrics_history['valid_loss']
-                if vl and loaded.lowest_loss != min(vl):
+                if vl and nv > 0 and loaded.lowest_loss != min(vl):
                     bad.append(dict(ctx, violated='after resuming, lowest_loss is not the minimum of the whole validation history',
                                     lowest=loaded.lowest_loss, minimum=min(vl)))
                 if best_before is not None and low_before is not None and loaded.lowest_loss == low_before:
